@@ -110,6 +110,7 @@ func cmdCheck(args []string) int {
 	sort.Strings(keys)
 	ctxs := map[string]*FnCtx{}
 	var unclaimed []string
+	var trustedFns []string
 	var coverCtx []*FnCtx
 	for _, k := range keys {
 		spec := e.Specs.Funcs[k]
@@ -159,6 +160,9 @@ func cmdCheck(args []string) int {
 			notes = append(notes, n)
 		}
 		sort.Strings(notes)
+		if spec.Trusted {
+			trustedFns = append(trustedFns, k+" ("+spec.Where+")")
+		}
 		fnsUnder = append(fnsUnder, map[string]any{"function": k, "safety_obligations": nK1, "contract_obligations": nK2, "abstractions": notes, "contract_at": spec.Where})
 		coverCtx = append(coverCtx, c)
 	}
@@ -277,6 +281,7 @@ func cmdCheck(args []string) int {
 		"known_finding_obligations":  len(kfHit),
 		"inactive_clauses":           len(e.Specs.Inactive),
 		"unclaimed_safety_obligations": unclaimed,
+		"trusted_function_contracts":  trustedFns,
 		"checker_cmd":               fmt.Sprintf("/verif/bin/govc check --property %s --tier %s  (VC generator over go/ssa of /repo working tree, -tags verif; solvers z3-new 5.1.0, z3 4.8.12, cvc5 1.0 raced)", P, *tier),
 		"trusted_base":              trustedBase(e, keys),
 		"functions_under_contract":  fnsUnder,
